@@ -250,9 +250,11 @@ func compileUint64(typ *runtime.Type, structName, fieldName string) (Decoder, er
 }
 
 func compileFloat32(structName, fieldName string) (Decoder, error) {
-	return newFloatDecoder(structName, fieldName, func(p unsafe.Pointer, v float64) {
+	dec := newFloatDecoder(structName, fieldName, func(p unsafe.Pointer, v float64) {
 		*(*float32)(p) = float32(v)
-	}), nil
+	})
+	dec.bitSize = 32
+	return dec, nil
 }
 
 func compileFloat64(structName, fieldName string) (Decoder, error) {
